@@ -1,6 +1,7 @@
 import Ecal.Model.ParserWF
 import Ecal.Model.TokenChannel
 import Ecal.Lemmas.ParserMain
+import Ecal.Lemmas.ParserShape
 /-!
 # C07 — parsing is total: an error or a well-formed tree, and nothing left running
 -/
@@ -85,15 +86,33 @@ theorem okTree_unfold (n : Node) (h : okTree n = true) :
         · exact ih hk.2 c hc
   exact this _ h.2
 
-/-- **parse_wellformed_partial.** Proved part of `parse_wellformed`: in a returned tree, at every depth,
-    no child is nil (the defect repaired by 486e4c7) and every node name is one of the known node kinds
-    (`kindOf name ≠ .unknown`: the names of the grammar table and of the constructed nodes — in
-    particular no nameless block-brace node, the defect repaired by fixes/C07-brace-in-guard.patch).
-    Full statement, NOT proved here: `parseToks ts = (some t, none) → WellFormed t = true`, i.e. also the
-    per-kind child counts/kinds (`shapeOk`) of `Model/ParserWF.lean`. What is missing: carrying the shape
-    clauses through the same induction (`Specs` would need the child signatures of every partial node).
-    The full predicate is evaluated by the model on the tree of every generated case of the
-    correspondence run (`wf=1` in the compared line) — tested, not proved. -/
+/-- **parse_wellformed.** For every token list: a returned tree is `WellFormed` — at every depth no child
+    is nil, every node has a token unless it is one of the nodes the parser constructs itself, every node
+    name is a known node kind, and every node has the number and kinds of children its kind requires
+    (`shapeOk` in `Model/ParserWF.lean`: binary operators 2, `plus`/`minus` 1–2, prefix operators 1,
+    `if` = (guard(1), statements) pairs, `loop` = [guard(1) | in(2), statements], `try` = statements then
+    except/otherwise/finally clauses each ending in / consisting of statements, `function` =
+    [identifier?, params, statements], `sink` = identifier … statements, `mutex`, `import`, `return` ≤ 1,
+    identifier chains of identifier/funccall/compaccess(1), `as`(1), terminals 0) — exactly what
+    Validate/Eval/PrettyPrint index without checking. Full strength: all kinds, no hypothesis on the
+    token list. Proof: `Ecal.Parse.specsW` (`Lemmas/ParserShape.lean`), one induction on the fuel in which
+    every nd*/ld* function reports the child signatures it appended (`Ext`). -/
+theorem parse_wellformed (ts : List Tok) (t : Node) (h : parseToks ts = (some t, none)) :
+    WellFormed t = true := by
+  have hw := parseBody_wf (fuelFor ts) ts
+  unfold Sat at hw
+  unfold parseToks parseToksWith at h
+  cases hb : parseBody (fuelFor ts) { toks := ts, node := none } with
+  | ok n p => rw [hb] at hw h; simp at h; subst h; exact hw
+  | err e p => rw [hb] at h; simp at h
+
+/-- the same for source text through the lexer model -/
+theorem parse_text_wellformed (input : List Nat) (t : Node) (h : parse input = (some t, none)) :
+    WellFormed t = true := parse_wellformed _ t h
+
+/-- **parse_wellformed_partial** (kept; superseded by `parse_wellformed`): no nil child and only known node
+    names at every depth, as a separate recursive predicate `okTree` carried by the termination/no-panic
+    induction `Ecal.Parse.specs`. -/
 theorem parse_wellformed_partial (ts : List Tok) (t : Node) (h : parseToks ts = (some t, none)) :
     okTree t = true := by
   rcases outcome (fuelFor ts) ts with ⟨t', h', hn⟩ | ⟨e, h', _⟩
@@ -106,7 +125,7 @@ theorem parse_names_known (ts : List Tok) (t : Node) (h : parseToks ts = (some t
     knownName t.name = true ∧ ∀ c ∈ t.children, ∃ c', c = some c' ∧ okTree c' = true :=
   okTree_unfold t (parse_wellformed_partial ts t h)
 
-/-- the hypothesis of `parse_wellformed_partial` is satisfiable: `a` followed by EOF gives a tree -/
+/-- the hypothesis of `parse_wellformed` is satisfiable: `a` followed by EOF gives a tree -/
 example : (parseToks [⟨7, 0, [97], true, false, 0, 1, 1⟩, ⟨1, 1, [], false, false, 0, 1, 2⟩]).1.map WellFormed
     = some true := by decide
 
